@@ -135,11 +135,13 @@ PROPS = {
         'assumptions': ['text fields: ASCII only (R5); in-range assignment = fits the field type, text without trailing NUL'],
     },
     'C13': {
+        'source_tie': ['CfgKeyData'],
         'jobs': [{'component': 'key', 'profile': 'codec', 'quick': 750, 'thorough': 5000}],
         'exhaustive_note': 'every published key; size code 0..7 x available value bytes 0..9 x 4 value patterns x reserved bits set/clear',
         'assumptions': ['R2: in-range is relative to the signedness the key table gives the key; R12: size codes 1..5'],
     },
     'C14': {
+        'source_tie': ['CfgKeyData'],
         'jobs': [{'component': 'key', 'profile': 'codec', 'quick': 750, 'thorough': 5000},
                  {'component': 'valset', 'profile': 'valget', 'quick': 450, 'thorough': 3000}],
         'exhaustive_note': 'size code 0..7 x available value bytes 0..9 x 4 value patterns x reserved bits set/clear',
@@ -178,6 +180,7 @@ PROPS = {
     },
     'C12': {
         'jobs': [{'component': 'srv', 'profile': 'mixed', 'quick': 2400, 'thorough': 4000, 'project': 'sent+same'},
+                 {'component': 'frame', 'profile': 'threads', 'quick': 1, 'thorough': 1},
                  {'component': 'tty', 'profile': 'tty', 'quick': 180, 'thorough': 1500},
                  {'component': 'gpsdtx', 'profile': 'gpsdtx', 'quick': 180, 'thorough': 1500}],
         'trusted': ['stub serial.Serial (write/baudrate/is_open recorded), stub control socket (connect/sendall/recv scripted)'],
